@@ -490,9 +490,6 @@ theorem frozen_instruction_sound (st : Static) (defsM defs1 defs2 : Defs) (ctx1 
 
 /-! ## data elements and constants: no state at all -/
 
-/-- the provider of `defs/data_block.rs` and `defs/symbol.rs`: no variable is known -/
-def pureP : SKProvider := { queryFunction := asmBuiltinKnown }
-
 /-- **a statically known data element or constant evaluates identically in every state, at every
     address, in every pass** (value, error text and context) -/
 theorem pure_static_eval (st : Static) (defs1 defs2 : Defs) (ctx1 ctx2 : RCtx) (e : Expr)
